@@ -38,6 +38,16 @@ pub fn hex(bytes: &[u8]) -> String {
   s
 }
 
+// (re)write the scratch layout file without truncating it to zero first (on a file system mounted with `discard`
+// every truncation of a block is a TRIM): overwrite from the start, then set the length
+pub fn put_file(path: &str, bytes: &[u8]) -> bool {
+  use std::io::Write;
+  match std::fs::OpenOptions::new().write(true).create(true).open(path) {
+    Ok(mut f) => f.write_all(bytes).is_ok() && f.set_len(bytes.len() as u64).is_ok(),
+    Err(_) => false
+  }
+}
+
 // one line: '\n' and '\\' escaped (serde_json's output never contains a raw '\r')
 pub fn esc_line(s: &str) -> String {
   let mut o = String::with_capacity(s.len() + 16);
@@ -401,7 +411,7 @@ impl<'a> TextSink<'a> {
     if as_layout_file {
       // exactly these bytes as a layout file, read the way the service reads /etc/totalmapper.json
       let path = self.tmp.clone();
-      if std::fs::write(&path, bytes).is_ok() {
+      if put_file(&path, bytes) {
         let r3 = catch_unwind(AssertUnwindSafe(|| crate::layout_loading::load_layout_from_file(&path)));
         let o3 = match r3 { Err(_) => super::Outcome::Panic, Ok(Err(e)) => super::Outcome::Err(e), Ok(Ok(l3)) => super::Outcome::Ok(l3) };
         match &o3 { super::Outcome::Ok(_) => self.stats.layout_loads.0 += 1, super::Outcome::Err(_) => self.stats.layout_loads.1 += 1, super::Outcome::Panic => self.stats.layout_loads.2 += 1 }
@@ -429,7 +439,9 @@ pub fn respace(rng: &mut Rng, text: &[u8], compact: bool) -> Vec<u8> {
 }
 
 pub fn run(sink: &mut TextSink, seed: u64, scale: usize, layouts: &[Layout], bases: &[Vec<u8>]) {
-  let mut rng = Rng::new(seed ^ 0x7465_7874_6c61_7965);          // a stream of its own: the value cases keep their sequence
+  // a stream of its own (the value cases keep their sequence); the seed goes through one splitmix step first, because
+  // Rng::new(s + 1) is Rng::new(s) advanced by one draw
+  let mut rng = Rng::new(Rng::new(seed ^ 0x7465_7874_6c61_7965).next());
   let mut corpus: Vec<Vec<u8>> = vec![];
   for _ in 0..(300 * scale) {
     let v = gen_value(&mut rng, 0, true);
